@@ -138,7 +138,7 @@ func GenErrSpec(t *rapid.T, okBias int) ErrSpec {
 	if rapid.IntRange(0, 99).Draw(t, "ok") < okBias {
 		return ErrSpec{Kind: "nil"}
 	}
-	kind := rapid.SampledFrom([]string{"status", "status", "status", "wrapped", "plain", "canceled", "deadline", "okstatus"}).Draw(t, "errkind")
+	kind := rapid.SampledFrom([]string{"status", "status", "status", "wrapped", "plain", "canceled", "deadline", "okstatus", "eof", "wrapped-eof"}).Draw(t, "errkind")
 	e := ErrSpec{Kind: kind}
 	switch kind {
 	case "okstatus":
